@@ -59,17 +59,22 @@ func findMatches(insts []bytecode.SearchInstruction, all bool, skip int, take in
 		} else {
 			// fmt.Println("====== FAILED  ======")
 			if currentState.status == SUCCESS && len(currentState.currentMatch) != 0 {
+				// a match that is skipped is still consumed: the next attempt starts after it
 				matchNumber += 1
-			}
-			skipC := reader.ReadAt(1, fileOffset)
-			if len(skipC) != 1 {
-				panic("WOW THAT IS NOT GOOD :(")
-			}
-			fileOffset += 1
-			columnNumber += 1
-			if rune(skipC[0]) == rune('\n') {
-				lineNumber += 1
-				columnNumber = 1
+				fileOffset = currentState.currentFileOffset
+				lineNumber = currentState.currentLineNum
+				columnNumber = currentState.currentColumnNum
+			} else {
+				skipC := reader.ReadAt(1, fileOffset)
+				if len(skipC) != 1 {
+					panic("WOW THAT IS NOT GOOD :(")
+				}
+				fileOffset += 1
+				columnNumber += 1
+				if rune(skipC[0]) == rune('\n') {
+					lineNumber += 1
+					columnNumber = 1
+				}
 			}
 		}
 
